@@ -3,6 +3,7 @@ CONSTANTS N = 4
   Start = 1
   MaxCrashes = 0
   Variant = "noguard"
+  RepairAtStart = TRUE
   AllowMissing = FALSE
 INVARIANT NeverFails
 CHECK_DEADLOCK FALSE
